@@ -145,3 +145,19 @@ def params_of_type(f, B, ty_pred):
         if d['kind'] == 'param' and not d['proj'] and d['idx'] < len(ins) and ty_pred(hirq.strip_refs(ins[d['idx']] or '')) and d['name'] not in out:
             out.append(d['name'])
     return out
+
+def finite_state_field(f, method_path):
+    """(field name, [constructor term of each value]) of *the* state field of the struct whose method `method_path` is: its one field
+    whose type is a fieldless enum of the workspace (anchored by type, not by name) - a finite domain a rule can evaluate a body over,
+    value by value.  None if the method is not a method on a workspace struct with exactly one such field."""
+    it = f.items.get(method_path) or {}
+    owner = (it.get('impl_self') or '').split('<')[0]
+    st_item = f.items.get(owner) or {}
+    if st_item.get('kind') != 'Struct' or not it.get('inputs') or not hirq.strip_refs(it['inputs'][0]).startswith(owner):
+        return None
+    enums = {k: v for k, v in f.items.items() if v.get('kind') == 'Enum' and v.get('variants') and all(not x['fields'] for x in v['variants'])}
+    fields = [(fl['name'], enums[fl['ty']]) for fl in st_item['variants'][0]['fields'] if fl['ty'] in enums]
+    if len(fields) != 1:
+        return None
+    name, enum = fields[0]
+    return name, [('ctor', hirq.short_def(v['path']), ()) for v in enum['variants']]
